@@ -138,6 +138,10 @@ Definition assign_into (d : dty) (src : tarr) : tarr := astype d src.
 Definition cmp_arr (f : Z -> Z -> bool) (a b : tarr) : list bool :=
   map (fun p => f (fst p) (snd p)) (combine (tv a) (tv b)).
 
+(* np.diff(a): consecutive differences, computed in a's own dtype (wraps for unsigned types) *)
+Definition np_diff (a : tarr) : list Z :=
+  map (fun p => wr (tdt a) (snd p - fst p)) (combine (tv a) (tl (tv a))).
+
 (* NumPy's integer remainder / floor division: Python semantics, 0 for a zero divisor *)
 Definition np_mod (x y : Z) : Z := if y =? 0 then 0 else x mod y.
 Definition np_div (x y : Z) : Z := if y =? 0 then 0 else x / y.
